@@ -149,6 +149,18 @@ UnalignedOK(a, lead, trail, words) ==
   /\ (Len(a) = 0 => Len(words) = 0)
 
 ---------------------------------------------------------------------------
+(* Run-length form.  Long results (the large-size stage: lengths around and  *)
+(* beyond the 64-bit word and 16-word block fast paths) are logged as the    *)
+(* lossless run-length encoding of what the code returned; the expected bit  *)
+(* sequence is computed with the operators above and encoded with RLE        *)
+Indices1(n) == [i \in 1..n |-> i]
+RLE(s) ==
+  LET st == SelectSeq(Indices1(Len(s)), LAMBDA i : i = 1 \/ s[i] # s[i - 1])       \* where a run starts
+  IN [k \in 1..Len(st) |-> <<s[st[k]], (IF k < Len(st) THEN st[k + 1] ELSE Len(s) + 1) - st[k]>>]
+RECURSIVE UnRLE(_)
+UnRLE(runs) == IF runs = <<>> THEN <<>> ELSE Fill(Head(runs)[2], Head(runs)[1]) \o UnRLE(Tail(runs))
+
+---------------------------------------------------------------------------
 (* Validity masks (NullBuffer): 1 = valid, 0 = null.  An absent mask means  *)
 (* all valid; Opt(p, m, n) is the mask denoted by an optional NullBuffer    *)
 Opt(present, m, n) == IF present THEN m ELSE Ones(n)
